@@ -28,6 +28,10 @@ CLAIMED = {
          'C17_resolves is a kernel-checked decision over every shipped resource x access-schema row (120 today), re-generated from the JSON files and factory dict literals on each run; C17_least proves that the node count is the least number of whole nodes covering the requested cores and GPUs (blocked cores/GPUs and hardware threads included), C17_agree that the agent configuration carries the same node/core/GPU figures as the batch job, C17_nodes_given the explicit-node case. The sizing model is compared with the real PMGRLaunchingComponent._prepare_pilot for every row x 10 (quick) / 120 (thorough) pilot sizes.',
          'Trusted: Lean kernel (decide +kernel uses no axioms), translator (its table is compared with the real get_resource_config for every row), radical.utils config loader; float ceil == integer ceiling on the tied range; batch-system translation of the job description not modelled.',
          'DESIGN.md section 6 C17'),
+ 'C19': ('Lean 4 proof (induction over the alias table with distinctness invariants; function extensionality for idempotence) over tables regenerated by an AST translator from TaskDescription._verify + sampled differential tie to TaskDescription.verify, convert_slots_*, PythonTask',
+         'verify is modelled generically over an alias table and a mode chain; tables_wf (decide) re-checks on every run that the tables found in the code are well-formed (each deprecated name is itself reset to a falsy value after being copied, names distinct); C19_alias, C19_nothing_lost, C19_idempotent, C19_modes are proved for every well-formed table and every description; C19_slots_to_old / C19_slots_to_new prove index preservation per conversion, C19_roundtrip_witness exhibits the recorded finding (new -> old -> new raises); C19_transport proves the composition order of the function encoding under the codec hypotheses. The driver evaluates verify through a tabulated fold proved equal (C19_driver_sound).',
+         'Trusted: Lean kernel (propext, Quot.sound via funext), AST translator, harness; dill/pickle/msgpack and ru.TypedDict are environment (sampled); floats dyadic. KNOWN FINDING F-C19-slots-roundtrip (recorded, not repaired).',
+         'DESIGN.md section 6 C19'),
 }
 
 NOT_YET = {}
